@@ -227,3 +227,15 @@ package mkvs
 //@ func Iterator.Close
 //@   iface (self Iterator)
 //@   modifies nothing
+
+// ---- overlay commit (C03): every entry of the overlay is written to the inner tree ----
+
+//@ ghost var GOvYield int
+//@ ghost var GInnerIns int
+
+//@ func treeOverlay.Commit
+//@   props C03
+//@   loop 1 invariant GOvYield - old(GOvYield) == GInnerIns - old(GInnerIns) + ite(ok, 1, 0)
+//@   loop 2 invariant GOvYield - old(GOvYield) == GInnerIns - old(GInnerIns)
+//@   ensures err == nil ==> GOvYield - old(GOvYield) == GInnerIns - old(GInnerIns)
+//@   note counted: every time the overlay's iterator yields an entry (First/Next returned true), exactly one Insert into the inner tree follows before the next step - no entry of the overlay is skipped at commit, whatever its value and whatever the inner tree already holds
